@@ -99,6 +99,14 @@ pub fn gen_case(r: &mut Rng, out: &mut String) {
     let nkeys = r.range(1, 6) as usize;
     // ---- a value from a short history (possibly empty)
     writeln!(out, "new b0").unwrap();
+    if r.chance(1, 6) {
+        // a value of the shared catalogue (gen/zoo.rs), kept small enough for the argument table's mutators
+        let (t, _) = super::zoo::zoo_target(r);
+        if super::zoo::card(&t) <= 140000 {
+            super::zoo::build_target(r, out, "b0", &t);
+            writeln!(out, "probe b0").unwrap();
+        }
+    }
     for _ in 0..r.range(0, 6) {
         match r.below(10) {
             0..=2 => writeln!(out, "insert b0 {}", extreme_value(r, nkeys)).unwrap(),
